@@ -32,4 +32,7 @@ def run(ctx):
         done.append(c14_handshake.run(ctx))
     except ModuleNotFoundError:
         ctx.notes.append("TLS handshake timeout sub-check not present in this build")
+    if ctx.thorough:
+        import apalache_extra
+        done.append(apalache_extra.handshake_inductive(ctx))
     return done
